@@ -606,7 +606,7 @@ namespace rkcommon {
                                                                            \
   /* "vec op scalar" */                                                    \
   template <typename T, typename U, typename = traits::is_arithmetic_t<U>> \
-  inline vec_t<T, 2> &name(vec_t<T, 2> &a, const U &b)                     \
+  inline vec_t<T, 2> &name(vec_t<T, 2> &a, const U b)                      \
   {                                                                        \
     a.x op b;                                                              \
     a.y op b;                                                              \
@@ -617,7 +617,7 @@ namespace rkcommon {
             typename U,                                                    \
             bool A,                                                        \
             typename = traits::is_arithmetic_t<U>>                         \
-  inline vec_t<T, 3, A> &name(vec_t<T, 3, A> &a, const U &b)               \
+  inline vec_t<T, 3, A> &name(vec_t<T, 3, A> &a, const U b)                \
   {                                                                        \
     a.x op b;                                                              \
     a.y op b;                                                              \
@@ -626,7 +626,7 @@ namespace rkcommon {
   }                                                                        \
                                                                            \
   template <typename T, typename U, typename = traits::is_arithmetic_t<U>> \
-  inline vec_t<T, 4> &name(vec_t<T, 4> &a, const U &b)                     \
+  inline vec_t<T, 4> &name(vec_t<T, 4> &a, const U b)                      \
   {                                                                        \
     a.x op b;                                                              \
     a.y op b;                                                              \
